@@ -22,27 +22,42 @@ import numpy as np
 from vf import core
 from extract import ufunc_legacy as extract_legacy
 
-RULE = ('exhaustive product: NumPy ufunc (all of np.core.umath except gufuncs) x method '
-        '{__call__,reduce,accumulate,outer,at,reduceat} x space (tensor/weighted tensor/'
-        'discretized/power; float32,float64,complex128,int64,bool) x operand pattern '
-        '(element/ndarray/scalar/list/broadcast, both orders) x out pattern (none/element/'
-        'tensor/ndarray/explicit None/wrong type/aliased input, per position) x kwargs '
-        '(axis incl. negative and tuples, keepdims, dtype). A case is non-trivial when both '
-        'NumPy and ODL return a value; distinct = distinct (stream, ufunc, method, space, '
-        'operands, out, kwargs) signatures among those. Lines sent to the Lean driver are the '
-        'distinct decision-model inputs.')
+RULE = ('enumeration over a FIXED zoo (space_zoo; not all of ODL): every NumPy ufunc of '
+        'np.core.umath except gufuncs x method {__call__,reduce,accumulate,outer,at,reduceat} x '
+        'spaces: tensor (float32,float64,complex128,int64,bool in shapes (3,),(2,3); 9 further '
+        'dtypes and a 0-d space for __call__ only; constant / float64-, float32-, int8-array / '
+        'custom-inner weightings, exponent 1), discretized (uniform with interior nodes, nodes '
+        'on the boundary, half-boundary, custom constant, exponent 1, array-weighted, '
+        'non-uniform, custom inner; 1 to 3 dimensions), power spaces (unweighted, of tensor '
+        'and discretized spaces) x operand pattern (element/ndarray/scalar/list/broadcast '
+        'smaller and larger/element of a differently weighted space, both orders) x out pattern '
+        '(none/element/tensor/ndarray/explicit None/wrong type/aliased input/wider and narrower '
+        'dtype than dtype=, per position) x kwargs (axis incl. negative and tuples, keepdims, '
+        'dtype incl. object). ONE deterministic value vector per (shape, dtype) in the quick '
+        'tier (three in thorough). Out patterns are only generated for operand patterns e, ee, '
+        'ae, ess (+ea, es for the RICH ufuncs); cases for which NumPy itself gives no result to '
+        'size `out` with are not built (counted in skipped_by_reason). A case is non-trivial '
+        'when both NumPy and ODL return a value; distinct = distinct (stream, ufunc, method, '
+        'space, operands, out, kwargs, value variant) signatures among those.')
 TRUSTED = ['translator tools/extract/ufunc_legacy.py (AST of odl/util/ufuncs.py -> '
-           'Gen/UfuncLegacy.lean; live numpy ufunc table)',
+           'Gen/UfuncLegacy.lean; live numpy ufunc table and can_cast table)',
            'NumPy itself: the numerical result, result dtype and result shape of every ufunc '
            'call are PARAMETERS of the model (delegation); agreement of values is established '
            'by the oracle on enumerated inputs only']
-ASSUMPTIONS = ['numerical equality with NumPy is by delegation (not a theorem): checked on the '
-               'enumerated inputs with equal_nan comparison',
-               'NumPy dispatch protocol (__array_ufunc__ is called with out always a tuple; '
-               'NotImplemented from all operands becomes TypeError; __array_wrap__ is applied '
-               'to __call__/reduce/accumulate/reduceat results of objects without '
-               '__array_ufunc__) as encoded in the model and observed by the correspondence',
-               'gufuncs (matmul) and the where=/order=/casting= keywords are not enumerated']
+ASSUMPTIONS = ['numerical equality with NumPy (values of results, contents written to out, '
+               'operands untouched) is NOT a theorem: checked by the oracle on the enumerated '
+               'zoo with equal_nan comparison',
+               'NumPy dispatch protocol (__array_ufunc__ of the FIRST element operand is called, '
+               'out always a tuple; NotImplemented from all operands becomes TypeError; '
+               '__array_wrap__ is applied to __call__/reduce/accumulate/reduceat results of '
+               'objects without __array_ufunc__) as encoded in the model and observed by the '
+               'correspondence',
+               'not covered at all: Tensor.__array_ufunc__ of base_tensors.py (overridden by '
+               'both shipped subclasses), a tensor and a discretized element mixed in one call, '
+               'gufuncs (matmul), where=/order=/casting=, dtype=object on 0-d spaces, weighted '
+               'or nested product spaces',
+               'a result of dtype object is a documented rejection (ODL has no object-dtype '
+               'spaces): ValueError expected']
 KNOWN_EXPLAINS_DISAGREEMENT = False
 
 METHODS = ['__call__', 'reduce', 'accumulate', 'outer', 'at', 'reduceat']
@@ -75,11 +90,45 @@ def space_zoo():
     zoo['dp_float64_23'] = ('discr', lambda: odl.uniform_discr([0, 0], [1, 3], (2, 3),
                                                                exponent=1.0))
     zoo['d_float64_223'] = ('discr', lambda: odl.uniform_discr([0, 0, 1], [1, 4, 4], (2, 2, 3)))
+    # --- round 3: spaces outside the first zoo
+    zoo['t_float64_0'] = ('tensor', lambda: odl.rn(()))                      # 0-d space
+    zoo['ti_float64_3'] = ('tensor', lambda: odl.rn(3, weighting=np.array([1, 2, 4], 'int8')))
+    zoo['ta_float32_3'] = ('tensor', lambda: odl.rn(3, dtype='float32', weighting=np.array(
+        [1, 2, 4], 'float32')))
+    zoo['tk_float64_3'] = ('tensor', lambda: odl.rn(3, inner=_custom_inner))  # custom inner
+    for dt in EXTRA_DTYPES:
+        zoo['tx_{}_3'.format(dt)] = ('tensor', lambda dt=dt: odl.tensor_space(3, dtype=dt))
+    zoo['db_float64_23'] = ('discr', lambda: odl.uniform_discr(
+        [0, 0], [1, 3], (2, 3), nodes_on_bdry=True))
+    zoo['dh_float64_23'] = ('discr', lambda: odl.uniform_discr(
+        [0, 0], [1.25, 3], (3, 3), nodes_on_bdry=[(True, False), False]))  # sides 1/2, 1
+    zoo['da_float64_23'] = ('discr', lambda: odl.uniform_discr(
+        [0, 0], [1, 3], (2, 3), weighting=np.arange(1, 7.).reshape(2, 3)))
+    zoo['dn_float64_34'] = ('discr', lambda: odl.DiscretizedSpace(
+        odl.nonuniform_partition([0, 1, 3], [0, 1, 2, 4]), odl.rn((3, 4))))
+    zoo['dna_float64_34'] = ('discr', lambda: odl.DiscretizedSpace(
+        odl.nonuniform_partition([0, 1, 3], [0, 1, 2, 4]),
+        odl.rn((3, 4), weighting=np.arange(1, 13.).reshape(3, 4))))
+    zoo['dk_float64_4'] = ('discr', lambda: odl.DiscretizedSpace(
+        odl.uniform_partition(0, 1, 4), odl.rn(4, inner=_custom_inner)))
     for dt in ['float64', 'complex128', 'int64', 'float32']:
         zoo['p_{}_2x3'.format(dt)] = ('power', lambda dt=dt: odl.ProductSpace(
             odl.tensor_space(3, dtype=dt), 2))
     zoo['p_discr_2x4'] = ('power', lambda: odl.ProductSpace(odl.uniform_discr(0, 1, 4), 2))
     return zoo
+
+
+EXTRA_DTYPES = ['int8', 'int16', 'int32', 'uint8', 'uint16', 'uint32', 'uint64', 'float16',
+                'complex64']
+
+
+def _custom_inner(x, y):
+    return 2.0 * np.vdot(y.data, x.data)
+
+
+def call_only(skey):
+    """Spaces enumerated for `__call__` only (extra dtypes, 0-d)."""
+    return skey.startswith('tx_') or skey == 't_float64_0'
 
 
 def ufunc_table():
@@ -116,7 +165,9 @@ def values(shape, dtype, variant):
     vals = [pool[i % len(pool)] for i in range(n)]
     if dtype.kind == 'b':
         arr = np.array([v > 0.6 for v in vals], dtype=bool)
-    elif dtype.kind in 'iu':
+    elif dtype.kind == 'u':
+        arr = np.array([abs(int(v * 2)) for v in vals], dtype=dtype)
+    elif dtype.kind == 'i':
         arr = np.array([int(v * 2) for v in vals], dtype=dtype)
     elif dtype.kind == 'c':
         arr = np.array([complex(v, pool[(i + 3) % len(pool)]) for i, v in enumerate(vals)],
@@ -157,13 +208,23 @@ def wdesc(w):
     if isinstance(w, ConstWeighting):
         return 'c{}@{}'.format(core.fs(float(w.const)), ex(w.exponent))
     if isinstance(w, ArrayWeighting):
-        return 'a@{}'.format(ex(w.exponent))
-    return 'o@{}'.format(ex(getattr(w, 'exponent', 2.0)))
+        return 'a{}@{}'.format(np.asarray(w.array).dtype.name, ex(w.exponent))
+    return 'k@{}'.format(ex(getattr(w, 'exponent', 2.0)))   # custom inner / norm / dist
 
 
 def pdesc(part):
-    return ';'.join('{},{},{}'.format(core.fs(float(a)), core.fs(float(b)), int(n))
-                    for a, b, n in zip(part.min_pt, part.max_pt, part.shape)) or '-'
+    """Per axis `min,max,n,side`: side = the code's cell side of a uniform axis, or the grid
+    coordinates of a non-uniform one."""
+    out = []
+    for i in range(part.ndim):
+        if part.is_uniform_byaxis[i]:
+            side = core.fs(float(part.cell_sides[i]))
+        else:
+            side = 'nu:' + '|'.join(core.fs(float(t)) for t in part.coord_vectors[i])
+        out.append('{},{},{},{}'.format(core.fs(float(part.min_pt[i])),
+                                        core.fs(float(part.max_pt[i])),
+                                        int(part.shape[i]), side))
+    return ';'.join(out) or '-'
 
 
 def kind_of(obj):
@@ -202,6 +263,13 @@ def ret_desc(r, given):
     if np.isscalar(r):
         return 'scalar'
     return 'other:' + type(r).__name__
+
+
+def msg_tag(e):
+    """First alphabetic words of the message: makes violation keys specific to the raise site."""
+    import re as _re
+    words = _re.findall(r'[A-Za-z_]+', str(e))
+    return '-'.join(w.lower() for w in words[:4]) or 'nomsg'
 
 
 def exc_desc(e):
@@ -301,25 +369,35 @@ class Violations(object):
             self.first[cls] = (key, what, replay)
 
     def flush(self):
+        """Unknown classes first and ALL of them (up to the context's cap); of the classes
+        matched by a known finding only `KNOWN_REPRESENTATIVES` per finding id are handed on,
+        so known witnesses can never crowd a new violation out of the bounded list. The
+        full per-finding counts go to the evidence."""
         known = core.load_known(self.ctx.pid)
         items = sorted(self.first.items())
-        unk = [(c, v) for c, v in items if core.match_known({'key': v[0]}, known) is None]
-        by_id = {}
+        unk, by_id, absorbed = [], {}, {}
         for c, v in items:
             k = core.match_known({'key': v[0]}, known)
-            if k is not None:
+            if k is None:
+                unk.append((c, v))
+            else:
                 by_id.setdefault(k['id'], []).append((c, v))
-        kn = []   # round-robin over the finding ids so each id is represented early
-        while any(by_id.values()):
-            for fid in sorted(by_id):
-                if by_id[fid]:
-                    kn.append(by_id[fid].pop(0))
+                a = absorbed.setdefault(k['id'], {'classes': 0, 'cases': 0})
+                a['classes'] += 1
+                a['cases'] += self.count[c]
+        kn = []
+        for fid in sorted(by_id):
+            kn.extend(by_id[fid][:KNOWN_REPRESENTATIVES])
         for cls, (key, what, replay) in unk + kn:
             self.ctx.violation(key, '{} ({} cases of this class)'.format(
                 what, self.count[cls]), replay)
         self.ctx.extra['violation_classes'] = len(items)
         self.ctx.extra['violation_classes_not_known'] = len(unk)
         self.ctx.extra['oracle_failures_total'] = sum(self.count.values())
+        self.ctx.extra['absorbed_by_known_finding'] = absorbed
+
+
+KNOWN_REPRESENTATIVES = 3
 
 
 def other_space(space, kind):
@@ -331,6 +409,20 @@ def other_space(space, kind):
     if kind == 'discr':
         return odl.uniform_discr(1, 2, 2, dtype=dt)
     return odl.ProductSpace(odl.tensor_space(2, dtype=dt), 2)
+
+
+def other_weighting_space(space, kind):
+    """Same kind, shape and dtype, another (constant) weighting and exponent."""
+    import odl
+    dt = base_dtype(space)
+    if dt.kind not in 'fc':
+        raise SkipCase('no weighted space for this dtype')
+    if kind == 'tensor':
+        return odl.tensor_space(space.shape, dtype=dt, weighting=3.0, exponent=1.0)
+    if kind == 'discr':
+        return odl.DiscretizedSpace(space.partition, odl.tensor_space(
+            space.shape, dtype=dt, weighting=7.0))
+    raise SkipCase('no second weighting for power spaces')
 
 
 def build_operands(c, space):
@@ -377,6 +469,11 @@ def build_operands(c, space):
         elif ch == 'o':
             sp2 = other_space(space, c.kind)
             o = sp2.element(values(tuple(sp2.shape), dt, v + 1))
+            ops.append(o)
+            pl.append(plain(o))
+        elif ch == 'y':
+            sp2 = other_weighting_space(space, c.kind)
+            o = sp2.element(values(shape, dt, v + 1))
             ops.append(o)
             pl.append(plain(o))
         elif ch == 'T':
@@ -428,6 +525,12 @@ def make_out(ch, c, space, x, res, noout_impl):
         return l, np.zeros(res.shape, dtype=res.dtype).tolist()
     if ch == 'a':
         return np.full(res.shape, 7, dtype=res.dtype), np.full(res.shape, 7, dtype=res.dtype)
+    if ch in 'gG':  # element / ndarray of a NARROWER kind than the computation dtype
+        dt = narrower_dtype(res.dtype)
+        if ch == 'G' or res.shape == ():
+            return np.full(res.shape, 7, dtype=dt), np.full(res.shape, 7, dtype=dt)
+        o = odl.tensor_space(res.shape, dtype=dt).element(np.full(res.shape, 7, dtype=dt))
+        return o, np.full(res.shape, 7, dtype=dt)
     if ch == 'F':  # plain ndarray of a WIDER dtype than the result (with dtype=: the glue
         #            computes into a converted temporary that must be written back)
         dt = wider_dtype(res.dtype)
@@ -463,6 +566,18 @@ def make_out(ch, c, space, x, res, noout_impl):
     raise KeyError(ch)
 
 
+def narrower_dtype(dt):
+    """A dtype of a lower kind (complex -> float64, float -> int64, int -> bool)."""
+    dt = np.dtype(dt)
+    if dt.kind == 'c':
+        return np.dtype('float64')
+    if dt.kind == 'f':
+        return np.dtype('int64')
+    if dt.kind in 'iu':
+        return np.dtype('bool')
+    raise SkipCase('nothing narrower than ' + dt.name)
+
+
 def wider_dtype(dt):
     """A dtype the result can be cast to (same_kind) but that differs from it."""
     dt = np.dtype(dt)
@@ -476,8 +591,12 @@ class SkipCase(Exception):
 
 
 def documented_rejection(c, ops):
-    """Rejections that DiscretizedSpaceElement.__array_ufunc__ documents (no function domain
-    can be assigned to the result): they are part of the contract, not failures."""
+    """Rejections that are part of the contract, not failures: those
+    DiscretizedSpaceElement.__array_ufunc__ documents (no function domain can be assigned to
+    the result), and a result of dtype `object` (`available_dtypes()`: ODL has no object-dtype
+    spaces; the space constructor raises ValueError('`dtype` ... not supported'))."""
+    if str(c.kw.get('dtype', '')) == 'object' and c.out == 'n' and c.kind != 'power':
+        return 'ValueError'
     if c.kind != 'discr':
         return None
     if c.method == 'reduce' and c.kw.get('keepdims'):
@@ -520,7 +639,7 @@ def run_case(c, space):
     # ---- out objects
     outs_odl = outs_np = None
     if c.out != 'n':
-        if len(c.out) != (nout if method == '__call__' else 1) and set(c.out) <= set('NwaetxfF'):
+        if len(c.out) != (nout if method == '__call__' else 1) and set(c.out) <= set('NwaetxfFgG'):
             pass  # malformed arity on purpose: NumPy itself rejects these
         if np0[0] != 'ok' or method == 'at':
             raise SkipCase('no result to size out with')
@@ -630,9 +749,14 @@ def oracle(r):
         if impl[0] == 'ok':
             problems.append(('accepted-where-numpy-raises',
                              'NumPy: {}: {}'.format(type(npo[1]).__name__, str(npo[1])[:100])))
+        elif not (isinstance(impl[1], type(npo[1])) or isinstance(npo[1], type(impl[1]))):
+            # both raise: the classes must be compatible (NumPy's exception propagates)
+            problems.append(('exception-class:{}-vs-numpy-{}({})'.format(
+                type(impl[1]).__name__, type(npo[1]).__name__, msg_tag(impl[1])),
+                '{}: {}'.format(type(impl[1]).__name__, str(impl[1])[:120])))
         return problems
     if impl[0] == 'err':
-        problems.append(('impl-raised:' + type(impl[1]).__name__,
+        problems.append(('impl-raised:{}({})'.format(type(impl[1]).__name__, msg_tag(impl[1])),
                          '{}: {}'.format(type(impl[1]).__name__, str(impl[1])[:160])))
         return problems
     if doc is not None:
@@ -660,6 +784,8 @@ def oracle(r):
                 problems.append(('out-content', 'output {}: out holds {} expected {}'.format(
                     i, np.asarray(g).ravel()[:4], np.asarray(want).ravel()[:4])))
             continue
+        if c.method == '__call__' and isinstance(a, np.generic) and kind_of(b) is not None:
+            a = np.asarray(a)   # 0-d operands: NumPy hands back a scalar, ODL a 0-d element
         if np.isscalar(a) and not isinstance(a, np.ndarray):
             if not np.isscalar(b):
                 problems.append(('not-scalar', 'expected scalar, got ' + type(b).__name__))
@@ -767,8 +893,9 @@ def out_kind(o, c):
     return 'w'
 
 
-def np_desc(npres, nres):
-    """NumPy's result as the model's parameter."""
+def np_desc(npres, nres, call=False):
+    """NumPy's result as the model's parameter. In `__call__` a NumPy scalar (0-d operands)
+    has `.shape == ()` and `.dtype` and is treated by the glue like a 0-d array."""
     if npres[0] == 'err':
         return 'err:' + type(npres[1]).__name__
     parts = []
@@ -777,6 +904,8 @@ def np_desc(npres, nres):
             parts.append('none')
         elif isinstance(a, np.ndarray):
             parts.append('arr:{}:{}'.format(shp(a.shape), a.dtype.name))
+        elif call and isinstance(a, np.generic):
+            parts.append('arr:-:{}'.format(a.dtype.name))
         elif np.isscalar(a):
             parts.append('scalar')
         else:
@@ -827,7 +956,8 @@ def model_line(r, iface='np'):
                 iface, c.kind, shp(space.shape), base_dtype(space).name, w, part,
                 c.method.strip('_'), c.ufunc.nin, c.ufunc.nout, ins,
                 '+'.join(in_parts) or '-', outs, axis_desc(r['kw']),
-                int(bool(r['kw'].get('keepdims', False))), np_desc(r['npo'], nres)))
+                int(bool(r['kw'].get('keepdims', False))),
+                np_desc(r['npo'], nres, call=(c.method == '__call__'))))
 
 
 def impl_desc(r):
@@ -857,8 +987,8 @@ def call_patterns(nin, kind, rich):
         pats = ['ee', 'ea', 'ae', 'es', 'se']
         if rich:
             pats += ['xx', 'el', 'le', 'eb', 'be']
-            if kind == 'tensor':
-                pats += ['eB', 'Be']
+            if kind in ('tensor', 'discr'):
+                pats += ['eB', 'Be', 'ey', 'ye']
             if kind == 'discr':
                 pats += ['eT']
         return pats
@@ -887,8 +1017,10 @@ def enumerate_cases(ctx, thorough, zoo, variant=None):
     if variant is None:
         variant = ctx.seed % 3
     for skey, (kind, _) in zoo.items():
-        broad_space = thorough or skey.endswith('_23') or skey.endswith('_3') or \
-            kind == 'power' or skey in ('d_float64_4',)
+        broad_space = thorough or ((skey.endswith('_23') or skey.endswith('_3') or
+                                    kind == 'power' or skey in ('d_float64_4',)) and
+                                   skey.split('_')[0] in ('t', 'd', 'p', 'tw', 'ta', 'tp', 'dw',
+                                                          'dp', 'tx'))
         for uname, u in table:
             rich = rich_all or uname in RICH
             if not broad_space and not (uname in RICH):
@@ -897,11 +1029,20 @@ def enumerate_cases(ctx, thorough, zoo, variant=None):
             for ops in call_patterns(u.nin, kind, rich):
                 yield Case('ufunc', skey, kind, uname, u, '__call__', ops, 'n', {}, variant)
                 if ops in ('e', 'ee', 'ae', 'ess') or (rich and ops in ('ea', 'es')):
-                    for op in out_patterns(u.nout, kind, rich):
+                    opats = out_patterns(u.nout, kind, rich)
+                    if call_only(skey) and not thorough:
+                        # extra dtypes in the quick tier: element and ndarray out only
+                        opats = [o for o in opats if set(o) <= set('ea')][:2]
+                        if ops != 'e' and ops != 'ee':
+                            opats = []
+                    for op in opats:
                         if kind == 'power' and not set(op) <= set('aeNw'):
                             continue
                         yield Case('ufunc', skey, kind, uname, u, '__call__', ops, op, {},
                                    variant)
+                if rich and ops in ('e', 'ee') and kind != 'power' and skey != 't_float64_0':
+                    yield Case('ufunc', skey, kind, uname, u, '__call__', ops, 'n',
+                               {'dtype': 'object'}, variant)
                 if rich and ops in ('e', 'ee', 'ea'):
                     for dt in ('float64', 'complex128', 'float32'):
                         yield Case('ufunc', skey, kind, uname, u, '__call__', ops, 'n',
@@ -915,10 +1056,17 @@ def enumerate_cases(ctx, thorough, zoo, variant=None):
                             for op in ('f', 'F'):
                                 yield Case('ufunc', skey, kind, uname, u, '__call__', ops, op,
                                            {'dtype': dt}, variant)
+                        if u.nout == 1 and dt in ('complex128', 'float64') and kind != 'power':
+                            # out of a NARROWER kind than dtype=: NumPy refuses (same_kind)
+                            for op in ('g', 'G'):
+                                yield Case('ufunc', skey, kind, uname, u, '__call__', ops, op,
+                                           {'dtype': dt}, variant)
                         if u.nout == 2 and dt == 'float32' and kind != 'power':
                             for op in ('FF', 'fN', 'NF'):
                                 yield Case('ufunc', skey, kind, uname, u, '__call__', ops, op,
                                            {'dtype': dt}, variant)
+            if call_only(skey):
+                continue
             if u.nin != 2 or u.nout != 1:
                 if uname in ('negative', 'modf', 'sqrt', 'clip'):
                     # NumPy rejects these method calls itself (or `at` for unary ufuncs)
@@ -955,6 +1103,9 @@ def enumerate_cases(ctx, thorough, zoo, variant=None):
                         for op in ('F', 'f'):   # dtype= differs from the dtype of out
                             yield Case('ufunc', skey, kind, uname, u, 'reduce', 'e', op,
                                        dict(ax, dtype='float32'), variant)
+                        for op in ('G', 'g'):   # out narrower than dtype=
+                            yield Case('ufunc', skey, kind, uname, u, 'reduce', 'e', op,
+                                       dict(ax, dtype='complex128'), variant)
             # ---- accumulate
             accs = [{}] + ([{'axis': 1}, {'axis': -1}] if ndim >= 2 else [])
             for ax in accs:
@@ -972,6 +1123,9 @@ def enumerate_cases(ctx, thorough, zoo, variant=None):
                         for op in ('F', 'f'):   # dtype= differs from the dtype of out
                             yield Case('ufunc', skey, kind, uname, u, 'accumulate', 'e', op,
                                        dict(ax, dtype='float32'), variant)
+                        for op in ('G', 'g'):
+                            yield Case('ufunc', skey, kind, uname, u, 'accumulate', 'e', op,
+                                       dict(ax, dtype='complex128'), variant)
             # ---- outer
             for ops in (['ee', 'eo', 'oe', 'ea', 'ae', 'xx'] if rich else ['ee', 'eo', 'ea']):
                 yield Case('ufunc', skey, kind, uname, u, 'outer', ops, 'n', {}, variant)
@@ -1111,7 +1265,8 @@ def run_direct(ctx, zoo, spaces, lines, meta):
                 if type(impl[1]).__name__ != doc:
                     problems.append(('documented-rejection-class', impl_desc(r)))
             elif impl[0] == 'err':
-                problems.append(('impl-raised:' + type(impl[1]).__name__, str(impl[1])[:160]))
+                problems.append(('impl-raised:{}({})'.format(type(impl[1]).__name__, msg_tag(impl[1])),
+                                 str(impl[1])[:160]))
             elif ch == 'w' and n:
                 if impl[1] is not NotImplemented:
                     problems.append(('foreign-out-accepted', impl_desc(r)))
@@ -1236,8 +1391,12 @@ def legacy_cases(ctx, zoo, thorough):
     import odl.util.ufuncs as uf
     names = list(uf.RAW_UFUNCS)
     for skey, (kind, _) in zoo.items():
-        if not thorough and not (skey.endswith('_23') or skey.endswith('_3') or
-                                 kind == 'power' or skey == 'd_float64_4'):
+        if not thorough and not ((skey.endswith('_23') or skey.endswith('_3') or
+                                  kind == 'power' or skey == 'd_float64_4') and
+                                 skey.split('_')[0] in ('t', 'd', 'p', 'tw', 'ta', 'tp', 'dw',
+                                                        'dp')):
+            continue
+        if call_only(skey) and skey != 't_float64_0':
             continue
         for name in names:
             for outp in ('n', 'e', 'a'):
@@ -1397,6 +1556,32 @@ def run_legacy(ctx, zoo, spaces, lines, meta, thorough):
 
 # ---------------------------------------------------------------------------
 
+def npreduce_cases():
+    """NumPy's axis rule (`npReduce` of the model, the subject of C17.discr_reduce_axes) against
+    the live NumPy: every axis tuple of length <= 2 with entries in [-ndim-1, ndim], the empty
+    tuple and a few triples, on shapes of 1 to 3 dimensions."""
+    for shape in [(3,), (2, 3), (2, 3, 4)]:
+        nd = len(shape)
+        rng = list(range(-nd - 1, nd + 1))
+        tuples = [()] + [(a,) for a in rng] + [(a, b) for a in rng for b in rng]
+        if nd == 3:
+            tuples += [(0, 1, 2), (-1, -2, -3), (0, -1, 1), (2, 0, -3)]
+        for ax in tuples:
+            yield shape, ax
+
+
+def run_npreduce(ctx, lines, meta):
+    for shape, ax in npreduce_cases():
+        try:
+            real = 'ok ' + shp(np.add.reduce(np.zeros(shape), axis=ax).shape)
+        except Exception:  # AxisError / duplicate axis
+            real = 'err'
+        line = 'npreduce shape={} axis={}'.format(shp(shape),
+                                                  ','.join(str(a) for a in ax) or 'empty')
+        lines.append(line)
+        meta.append((shape, ax, real))
+
+
 def model_branch(c, r, ans):
     """Which branch of the Lean model answered: model/<kind>/<method>/<outcome class>."""
     if ans.startswith('ok '):
@@ -1488,6 +1673,7 @@ def run(ctx, deep=False):
     spaces = {k: ctor() for k, (_, ctor) in zoo.items()}
     lines, meta = [], []
     skipped = 0
+    skip_reasons = {}
     # ---- main enumeration
     variants = [ctx.seed % 3]
     if ctx.tier == 'thorough':   # all three value sets (signs, zeros, repeats differ)
@@ -1498,12 +1684,12 @@ def run(ctx, deep=False):
         space = spaces[c.skey]
         try:
             r = run_case(c, space)
-        except SkipCase:
+        except SkipCase as e:
+            # decided BEFORE the real code is called (no out object can be built for this
+            # pattern, e.g. NumPy itself gives no result to size `out` with)
             skipped += 1
-            continue
-        except Exception as e:  # harness-side construction failure: not a verdict
-            ctx.err('harness-skip:' + type(e).__name__)
-            skipped += 1
+            reason = str(e)
+            skip_reasons[reason] = skip_reasons.get(reason, 0) + 1
             continue
         problems = oracle(r)
         line = model_line(r)
@@ -1519,9 +1705,12 @@ def run(ctx, deep=False):
     # ---- element / asarray
     wmeta, wlines = [], []
     run_wrap(ctx, zoo, spaces, wlines, wmeta)
+    nmeta, nlines = [], []
+    run_npreduce(ctx, nlines, nmeta)
     ctx.extra['skipped_unbuildable'] = skipped
+    ctx.extra['skipped_by_reason'] = dict(sorted(skip_reasons.items()))
     # ---- model
-    all_lines = lines + llines + wlines
+    all_lines = lines + llines + wlines + nlines
     uniq = sorted(set(all_lines))
     ctx.extra['model_lines_distinct'] = len(uniq)
     answers = dict(zip(uniq, core.run_driver('C17', uniq)))
@@ -1591,6 +1780,13 @@ def run(ctx, deep=False):
                 d['space'], d['adt'], d['ashape'], d['flag'], d['order'], code), text, d)
         if answers[line] != impl:
             ctx.disagree(dict(d, line=line), impl, answers[line])
+    # ---- NumPy's axis rule
+    for (shape, ax, real), line in zip(nmeta, nlines):
+        ctx.case(('npreduce', shape, ax) if real != 'err' else None)
+        ctx.hit('npreduce/' + real.split(' ')[0])
+        if answers[line] != real:
+            ctx.disagree({'stream': 'npreduce', 'shape': list(shape), 'axis': list(ax),
+                          'line': line}, real, answers[line])
     V.flush()
     hit = set(k for k in ctx.branches if k.startswith('model/'))
     unhit = sorted(set(EXPECTED_MODEL_BRANCHES) - hit)
